@@ -75,6 +75,10 @@ def parseOp (ws : List String) : Option Op :=
     some (.dsread (← d.toNat?) (← parseLabels taxa) rows trees)
   | ["newtreeseed", l, t] => do some (.newtreeseed (← l.toNat?) (← t.toNat?))
   | ["treeseed", n, t] => do some (.treeseed (← parseONat n) (← t.toNat?))
+  | ["readx", l, pre, docs] => do some (.readx (← l.toNat?) (← parseLabels pre) (← parseDocs docs))
+  | ["tlget", n, pre, docs] => do some (.tlget (← n.toNat?) (← parseLabels pre) (← parseDocs docs))
+  | ["tget", n, pre, labs] => do some (.tget (← n.toNat?) (← parseLabels pre) (← parseLabels labs))
+  | ["mget", n, last, pre, rows] => do some (.mget (← n.toNat?) (← parseBool last) (← parseLabels pre) (← parseLabels rows))
   | ["taadd", n, t] => do some (.taadd (← n.toNat?) (← t.toNat?))
   | _ => none
 
